@@ -346,9 +346,9 @@ def legal(meta, ops, upto=None, two_monitors=False):
                 if sh['nq'] == 2 and p['s0'] == p['s1']:
                     return None
                 for j in range(3):
-                    if p.get('se%d' % j) == 2 and (p.get('nobj') not in m.objs or m.objs[p['nobj']].kind not in 'MW' or p['nobj'] == op[4] or sh['fn'] == 'v'):
+                    if p.get('se%d' % j) == 2 and (p.get('nobj') not in m.objs or m.objs[p['nobj']].kind not in 'MW' or p['nobj'] == op[4] or sh['fn'] in ('v', 'r')):
                         return None
-                    if p.get('se%d' % j) == 3 and (p.get('nobj') not in m.objs or m.objs[p['nobj']].kind not in 'MW' or sh['fn'] == 'gs'):
+                    if p.get('se%d' % j) == 3 and (p.get('nobj') not in m.objs or m.objs[p['nobj']].kind not in 'MW' or sh['fn'] in ('gs', 'r')):
                         return None
                 live_slots.add(key)
                 owner[op[1]] = key
